@@ -35,7 +35,10 @@ rng("JavaRandom", loops={0: dict(invariant=["len(ba) == 4 * values", "forall(j, 
     return_hints=[("C20", "pow2_add(8 * (num_bytes - 1), n % 8)"), ("C20", "pow2_add(8 * (num_bytes - 1), 8)")],
     # java.util.Random.next(32): seed' = (seed * 0x5DEECE66D + 0xB) mod 2^48, output = seed' >>> 16 (32 bits)
     extra={"entry_ghost": ["g_prev = 0"],
-           "on_assign": {"output": [
+           "on_assign": {
+               # java.util.Random(seed): the scrambled initial state is (seed ^ 0x5DEECE66D) mod 2^48
+               "state@0": ["assert [C20] state == bxor(seed, 25214903917) % 281474976710656"],
+               "output": [
                "assert [C20] state == (g_prev * 25214903917 + 11) % 281474976710656",
                "assert [C20] output == idiv(state, 65536) and 0 <= output and output < 4294967296"]}})
 rng("LcgNist", self_fields={"a": "int"},
